@@ -153,12 +153,172 @@ func RunRestartScenario(sc *Scenario) (vd *Verdict) {
 	}
 	keys := map[string][]byte{"client1": []byte("pem-of-client1"), "client2": []byte("pem-of-client2")}
 	jobsCfg := map[string]map[string]any{}
+	var outcomes []bool
 	for i := range sc.Ops {
 		op := &sc.Ops[i]
 		time.Sleep(time.Duration(max64(op.Sleep, 1)))
 		stats["ops"]++
 		var oerr error
 		switch op.K {
+		default:
+			oerr = c14Apply(h, op, jobsCfg, keys, stats)
+		case "restart":
+			before := Observe(h, pool)
+			deletedBefore := map[uint32]bool{}
+			for k := range h.Store.VerifDeletedDatasets() {
+				deletedBefore[k] = true
+			}
+			if err := h.Close(); err != nil {
+				fail(viol("C14", "restart", "close-failed", "%v", err), i)
+				return
+			}
+			nh, err := OpenWebHub(dir, secDir, sc.Knobs, false)
+			if err != nil {
+				fail(viol("C14", "restart", "reopen-failed", "%v", err), i)
+				return
+			}
+			h = nh
+			stats["restarts"]++
+			after := Observe(h, pool)
+			for _, k := range sortedKeys(before) {
+				if after[k] != before[k] {
+					fail(viol("C14", "restart-noop", "differs:"+sectionClass(k), "after a restart %q differs:\nbefore: %s\nafter:  %s", k, clip(before[k]), clip(after[k])), i)
+					return
+				}
+			}
+			for _, k := range sortedKeys(after) {
+				if _, ok := before[k]; !ok {
+					fail(viol("C14", "restart-noop", "appeared:"+sectionClass(k), "after a restart %q appeared: %s", k, clip(after[k])), i)
+					return
+				}
+			}
+			// writes after the restart behave as if it had not happened
+			rs, v := RawConsistency(h, "C14")
+			if v != nil {
+				fail(v, i)
+				return
+			}
+			for id := range deletedBefore {
+				if !h.Store.VerifDeletedDatasets()[id] {
+					fail(viol("C14", "restart-noop", "deleted-dataset-forgotten", "dataset id %d was deleted before the restart and is no longer recorded as deleted", id), i)
+					return
+				}
+			}
+			probeNames := h.Store.VerifDatasetNames()
+			sort.Strings(probeNames)
+			for _, n := range probeNames {
+				if n == "core.Dataset" {
+					continue
+				}
+				ds := h.Dataset(n)
+				fresh := []Ent{{"id": fmt.Sprintf("%spost%d", MkE, stats["restarts"]), "props": map[string]any{MkS + "a0": "x"}, "refs": map[string]any{}}}
+				time.Sleep(time.Nanosecond)
+				if err := ds.StoreEntities(h.Entities(fresh)); err != nil {
+					fail(viol("C14", "restart-noop", "write-rejected-after-restart", "%v", err), i)
+					return
+				}
+				seqs, _ := ds.VerifChangeKeys()
+				if old, had := rs.MaxSeq[ds.InternalID]; had && len(seqs) > 0 && seqs[len(seqs)-1] <= old {
+					fail(viol("C14", "restart-noop", "change-position-reused", "dataset %s: the first write after the restart got change position %d, the maximum before was %d", n, seqs[len(seqs)-1], old), i)
+					return
+				}
+				iid, ok := h.Store.VerifIDForURI(h.curie(fresh[0]["id"].(string)))
+				if !ok || iid <= rs.MaxInternalID {
+					fail(viol("C14", "restart-noop", "internal-id-reused", "the first new identifier after the restart got internal id %d, the maximum before was %d", iid, rs.MaxInternalID), i)
+					return
+				}
+				break
+			}
+			// ... and a dataset created now gets an internal id no dataset, live or deleted, ever had
+			var maxDs uint32
+			for _, n := range h.Store.VerifDatasetNames() {
+				if d := h.Dataset(n); d != nil && d.InternalID > maxDs {
+					maxDs = d.InternalID
+				}
+			}
+			for id := range h.Store.VerifDeletedDatasets() {
+				if id > maxDs {
+					maxDs = id
+				}
+			}
+			probe, err := h.Dsm.CreateDataset(fmt.Sprintf("after%d", stats["restarts"]), nil)
+			if err != nil || probe == nil {
+				fail(viol("C14", "restart-noop", "create-rejected-after-restart", "%v", err), i)
+				return
+			}
+			if probe.InternalID <= maxDs {
+				fail(viol("C14", "restart-noop", "dataset-id-reused", "the first dataset created after the restart got internal id %d; ids up to %d are taken by existing or deleted datasets", probe.InternalID, maxDs), i)
+				return
+			}
+			ev("restart")
+		}
+		if oerr != nil {
+			stats["op_errors"]++
+		}
+		outcomes = append(outcomes, oerr != nil)
+		ev("%s err=%v", op.K, oerr != nil)
+	}
+	// the same history on a twin hub that is never restarted: every request must have had the same outcome and the
+	// two hubs must answer alike (run times aside) - a restart must not show in how later requests are treated
+	tdir, tsec := NewDir("c14twin"), NewDir("c14twinsec")
+	th, err := OpenWebHub(tdir, tsec, sc.Knobs, false)
+	if err != nil {
+		vd.Verdict, vd.Message = "error", err.Error()
+		return
+	}
+	defer func() {
+		_ = th.Close()
+		os.RemoveAll(tdir)
+		os.RemoveAll(tsec)
+	}()
+	for _, d := range sc.Datasets {
+		if _, err := th.Dsm.CreateDataset(d, nil); err != nil {
+			vd.Verdict, vd.Message = "error", err.Error()
+			return
+		}
+	}
+	tjobs := map[string]map[string]any{}
+	tstats := map[string]int64{}
+	var nres int64
+	for i := range sc.Ops {
+		op := &sc.Ops[i]
+		time.Sleep(time.Duration(max64(op.Sleep, 1)))
+		var oerr error
+		if op.K == "restart" {
+			nres++
+			c14Probe(th, nres)
+		} else {
+			oerr = c14Apply(th, op, tjobs, keys, tstats)
+		}
+		if (oerr != nil) != outcomes[i] {
+			fail(viol("C14", "restart-twin", "request-outcome-differs:"+op.K, "operation %d (%s %s%s) %s on the hub that was restarted %d time(s) before it and %s on a hub that went through the same history without restarts (%v)", i, op.K, op.DS, op.S, okOrNot(!outcomes[i]), nres, okOrNot(oerr == nil), oerr), i)
+			return
+		}
+	}
+	stats["twin_histories"]++
+	a, b := Observe(h, pool), Observe(th, pool)
+	for _, k := range sortedKeys(b) {
+		if sectionClass(k) == "job-history" {
+			continue
+		}
+		if a[k] != b[k] {
+			fail(viol("C14", "restart-twin", "differs:"+sectionClass(k), "at the end of the history %q differs between the hub that was restarted and a hub that went through the same history without restarts:\nrestarted: %s\ntwin:      %s", k, clip(a[k]), clip(b[k])), len(sc.Ops))
+			return
+		}
+	}
+	return
+}
+
+func okOrNot(ok bool) string {
+	if ok {
+		return "succeeded"
+	}
+	return "failed"
+}
+
+// c14Apply performs one operation of a C14 history on hub h (everything but the restart itself).
+func c14Apply(h *Hub, op *Op, jobsCfg map[string]map[string]any, keys map[string][]byte, stats map[string]int64) (oerr error) {
+	switch op.K {
 		case "batch":
 			if ds := h.Dataset(op.DS); ds != nil {
 				oerr = ds.StoreEntities(h.Entities(op.Ents))
@@ -242,100 +402,25 @@ func RunRestartScenario(sc *Scenario) (vd *Verdict) {
 			oerr = h.Full.Web.TPS.Add(security.ProviderConfig{Name: op.S, Type: "basic", User: &security.ValueReader{Type: "text", Value: "u" + op.S}, Password: &security.ValueReader{Type: "text", Value: "p"}})
 		case "deleteProvider":
 			_ = h.Full.Web.TPS.DeleteProvider(op.S)
-		case "restart":
-			before := Observe(h, pool)
-			deletedBefore := map[uint32]bool{}
-			for k := range h.Store.VerifDeletedDatasets() {
-				deletedBefore[k] = true
-			}
-			if err := h.Close(); err != nil {
-				fail(viol("C14", "restart", "close-failed", "%v", err), i)
-				return
-			}
-			nh, err := OpenWebHub(dir, secDir, sc.Knobs, false)
-			if err != nil {
-				fail(viol("C14", "restart", "reopen-failed", "%v", err), i)
-				return
-			}
-			h = nh
-			stats["restarts"]++
-			after := Observe(h, pool)
-			for _, k := range sortedKeys(before) {
-				if after[k] != before[k] {
-					fail(viol("C14", "restart-noop", "differs:"+sectionClass(k), "after a restart %q differs:\nbefore: %s\nafter:  %s", k, clip(before[k]), clip(after[k])), i)
-					return
-				}
-			}
-			for _, k := range sortedKeys(after) {
-				if _, ok := before[k]; !ok {
-					fail(viol("C14", "restart-noop", "appeared:"+sectionClass(k), "after a restart %q appeared: %s", k, clip(after[k])), i)
-					return
-				}
-			}
-			// writes after the restart behave as if it had not happened
-			rs, v := RawConsistency(h, "C14")
-			if v != nil {
-				fail(v, i)
-				return
-			}
-			for id := range deletedBefore {
-				if !h.Store.VerifDeletedDatasets()[id] {
-					fail(viol("C14", "restart-noop", "deleted-dataset-forgotten", "dataset id %d was deleted before the restart and is no longer recorded as deleted", id), i)
-					return
-				}
-			}
-			for _, n := range h.Store.VerifDatasetNames() {
-				if n == "core.Dataset" {
-					continue
-				}
-				ds := h.Dataset(n)
-				fresh := []Ent{{"id": fmt.Sprintf("%spost%d", MkE, stats["restarts"]), "props": map[string]any{MkS + "a0": "x"}, "refs": map[string]any{}}}
-				time.Sleep(time.Nanosecond)
-				if err := ds.StoreEntities(h.Entities(fresh)); err != nil {
-					fail(viol("C14", "restart-noop", "write-rejected-after-restart", "%v", err), i)
-					return
-				}
-				seqs, _ := ds.VerifChangeKeys()
-				if old, had := rs.MaxSeq[ds.InternalID]; had && len(seqs) > 0 && seqs[len(seqs)-1] <= old {
-					fail(viol("C14", "restart-noop", "change-position-reused", "dataset %s: the first write after the restart got change position %d, the maximum before was %d", n, seqs[len(seqs)-1], old), i)
-					return
-				}
-				iid, ok := h.Store.VerifIDForURI(h.curie(fresh[0]["id"].(string)))
-				if !ok || iid <= rs.MaxInternalID {
-					fail(viol("C14", "restart-noop", "internal-id-reused", "the first new identifier after the restart got internal id %d, the maximum before was %d", iid, rs.MaxInternalID), i)
-					return
-				}
-				break
-			}
-			// ... and a dataset created now gets an internal id no dataset, live or deleted, ever had
-			var maxDs uint32
-			for _, n := range h.Store.VerifDatasetNames() {
-				if d := h.Dataset(n); d != nil && d.InternalID > maxDs {
-					maxDs = d.InternalID
-				}
-			}
-			for id := range h.Store.VerifDeletedDatasets() {
-				if id > maxDs {
-					maxDs = id
-				}
-			}
-			probe, err := h.Dsm.CreateDataset(fmt.Sprintf("after%d", stats["restarts"]), nil)
-			if err != nil || probe == nil {
-				fail(viol("C14", "restart-noop", "create-rejected-after-restart", "%v", err), i)
-				return
-			}
-			if probe.InternalID <= maxDs {
-				fail(viol("C14", "restart-noop", "dataset-id-reused", "the first dataset created after the restart got internal id %d; ids up to %d are taken by existing or deleted datasets", probe.InternalID, maxDs), i)
-				return
-			}
-			ev("restart")
-		}
-		if oerr != nil {
-			stats["op_errors"]++
-		}
-		ev("%s err=%v", op.K, oerr != nil)
 	}
-	return
+	return oerr
+}
+
+// c14Probe does, without a restart, the writes that follow every restart of a C14 history (a new entity in the first
+// dataset, a new dataset), so that a twin hub that is never restarted goes through the same history.
+func c14Probe(h *Hub, n int64) {
+	names := h.Store.VerifDatasetNames()
+	sort.Strings(names)
+	for _, name := range names {
+		if name == "core.Dataset" {
+			continue
+		}
+		fresh := []Ent{{"id": fmt.Sprintf("%spost%d", MkE, n), "props": map[string]any{MkS + "a0": "x"}, "refs": map[string]any{}}}
+		time.Sleep(time.Nanosecond)
+		_ = h.Dataset(name).StoreEntities(h.Entities(fresh))
+		break
+	}
+	_, _ = h.Dsm.CreateDataset(fmt.Sprintf("after%d", n), nil)
 }
 
 func clip(s string) string {
